@@ -130,8 +130,38 @@ func c18(e *Env) {
 	if nStores == 0 {
 		ob1.Fail("NewTask", "NewTask's call tree never fills Task.subStreamIPs")
 	}
+	// the drain happens exactly when the formatter will join: under the assumption that makes the formatter's join
+	// arm reachable (join flag set, non-empty separator) the receive on the carrier's SubStream channel is reached
+	if fi0.joinFld != nil {
+		obG := r.Ob("R1", "NewTask:drain-guard≙join-guard", "whenever the formatter joins a port (join flag set, separator non-empty) NewTask has drained that port's sub-stream: the receive on SubStream.Chan is reachable under that very assumption")
+		resJ := fi0.arm("i", false, true)
+		reachedJ := resJ.ReachedNodes()
+		found, reached := false, false
+		for _, rn := range gt.Nodes {
+			u, ok := rn.Instr.(*ssa.UnOp)
+			if !ok || u.Op != token.ARROW || rn.Kind == core.KAfter {
+				continue
+			}
+			if !strings.Contains(xs.InCtx(rn.Ctx, u.X).String(), ".SubStream.Chan") {
+				continue
+			}
+			found = true
+			if reachedJ[rn] {
+				reached = true
+			}
+		}
+		switch {
+		case !found:
+			obG.Unknown("NewTask", "no receive on a SubStream channel in NewTask's call tree")
+		case !reached:
+			obG.Fail("NewTask", "with the join flag set and a non-empty separator - the condition under which the formatter joins - the sub-stream is never drained: the guard of the drain disagrees with the guard of the join, the placeholder is replaced by the empty string")
+		default:
+			obG.OK("NewTask", "drain reachable under the join assumption")
+		}
+	}
 	// ---- R2 joined replacement
 	e.fmtJoin("R2")
+	e.fmtValueFlow("R2")
 	ob2b := r.Ob("R2", "PortInfo.joinSep←join:(…)", "the separator stored in PortInfo comes from the capture group of the `join:(…)` pattern of the placeholder")
 	if ip := p.Func("NewProc"); ip != nil {
 		found := false
